@@ -97,9 +97,22 @@ Theorem mtime_of_header_thm : forall m,
   mtime_of_header m = if m =? 0 then MFile else if I64_MAX <? m then MPanic else MSecs m.
 Proof. reflexivity. Qed.
 
-(* a tar header can carry an mtime of 2^63 or more (base-256 field): mtime() panics *)
-Theorem tar_mtime_panic_refuted_thm : exists m, m < 2 ^ 64 /\ mtime_of_header m = MPanic.
-Proof. exists (2 ^ 63). split; [vm_compute; reflexivity | reflexivity]. Qed.
+(* tar (after the repair): whatever a header's mtime field holds, mtime() never panics; a time that
+   SystemTime / chrono cannot represent is treated like "no time in the header" *)
+Theorem tar_mtime_total_thm : forall m,
+  tar_mtime_of_header m = if (m =? 0) || (CHRONO_MAX_SECS <? m + 86400) then MFile else MSecs m.
+Proof.
+  intro m. unfold tar_mtime_of_header, seconds_to_systemtime_checked.
+  destruct (m =? 0); [reflexivity|]. destruct (CHRONO_MAX_SECS <? m + 86400); reflexivity.
+Qed.
+Theorem tar_mtime_never_panics_thm : forall m, tar_mtime_of_header m <> MPanic.
+Proof. intro m. rewrite tar_mtime_total_thm. destruct ((m =? 0) || (CHRONO_MAX_SECS <? m + 86400)); discriminate. Qed.
+(* the gz arm cannot panic either: MTIME is a u32 *)
+Theorem gz_mtime_never_panics_thm : forall m, m < 2 ^ 32 -> mtime_of_header m <> MPanic.
+Proof.
+  intros m H. unfold mtime_of_header, seconds_to_systemtime. destruct (m =? 0); [discriminate|].
+  replace (I64_MAX <? m) with false; [discriminate|]. symmetry. apply N.ltb_ge. unfold I64_MAX. change (2 ^ 32) with 4294967296 in H. lia.
+Qed.
 
 (* ------------------------------------------------------------------------------------------ tar *)
 Definition item_path (it : tar_item) : option bytes :=
@@ -282,7 +295,8 @@ Section TarWhole.
     ntf_tar dstate read mkdec (S (length (toe_data e))) (archive ++ SUBPATH_SEP :: member) es
     = COk (Some (toe_data e,
                  let m := match toe_mtime e with Some m => m | None => 0 end in
-                 if m =? 0 then None else Some (seconds_to_systemtime m))).
+                 if m =? 0 then None
+                 else match seconds_to_systemtime_checked m with Some s => Some (MSecs s) | None => None end)).
   Proof.
     intros archive member es idx e Hsep Hn Hp Hs Hfirst.
     unfold ntf_tar. rewrite rsplit_once_last by exact Hsep.
